@@ -216,3 +216,19 @@ def shrink_candidates(case):
             for k in case['deco']:
                 d2 = {a: b for a, b in case['deco'].items() if a != k}
                 yield dict(case, deco=d2, grammar=decorated_text(rules, d2) + RETRY % dict(s=case['start0']))
+
+
+# ------------------------------------------------------------------ known findings
+def _f_c04_b(case, detail):
+    """which failure is reported among several at the furthest position: set_furthest_exception keeps the *last* one recorded
+    (e.pos >= furthest.pos), and a re-evaluation that memoization would have skipped records the nested failures again.
+    Same outcome kind and same position, another failure class, under a setting that changes what is cached"""
+    a, b = detail.get('default'), detail.get('variant')
+    if not (isinstance(a, (list, tuple)) and isinstance(b, (list, tuple)) and len(a) >= 3 and len(b) >= 3):
+        return False
+    if a[0] != 'fail' or b[0] != 'fail' or a[2] != b[2] or a[1] == b[1]:
+        return False
+    return bool(set(detail.get('settings') or {}) & {'memoization', 'perlinememos', 'prune_memos_on_cut'})
+
+
+EXCLUSIONS = {'F-C04-b': _f_c04_b}
